@@ -1,6 +1,6 @@
 (* C14Check.v — judges the parsed-back output of the REAL built-in reporters. *)
 From CV Require Import Model.Base Model.Events Model.Contract Model.Normalize Model.Stats Model.StatsSpec
-  Model.Reporters Model.ReportersSpec Model.ReportersSpec2 Check.Verdict.
+  Model.Reporters Model.ReportersSpec Model.ReportersSpec2 Model.ReportersSpec3 Check.Verdict.
 From CV Require Proofs.ReportersP2 Proofs.ReportersP3 Proofs.ReportersP4.
 
 Record rcase14 := mk_rcase14 {
@@ -29,9 +29,13 @@ Definition c14_ok (c : rcase14) : bool :=
   r_wellformed c && r_text_ok c &&
   match r_writer c with
   | 0 => c14_libtest_ok es (r_report c)
-  | 1 => c14_json_ok es (r_report c)
-  (* terminal and JUnit: also UNDER WHICH feature / rule / testcase every fact stands (ReportersSpec2) *)
+  (* JSON: also the exact status code of every step and the passed hooks (ReportersSpec3) *)
+  | 1 => c14_json_ok es (r_report c) && c14_json_ok2 es (r_report c)
+  (* terminal and JUnit: also UNDER WHICH feature / rule / testcase every fact stands (ReportersSpec2); JUnit: the
+     classification of every testcase by the INDEPENDENT reading of the property (failure if a step or hook of the attempt
+     failed, else skipped if a step was skipped, else success), whenever the attempts of the stream are canonical *)
   | 2 => c14_junit_ok es (r_report c) && c14_junit_attr_ok es (r_report c)
+         && (negb (attempts_canonical es) || c14_junit_ok3 es (r_report c))
   | _ => c14_basic_ok es (r_report c) && c14_basic_attr_ok es (r_report c)
   end.
 
